@@ -767,10 +767,6 @@ bool XMLReader::location()
             // anonymous locations get an internal name based on the ID
             if (is_blank(l_name))
                 l_name = "_" + l_id;
-            /* Remember the mapping from id to name */
-            if (auto [_, ins] = names.insert_or_assign(l_id, l_name); !ins)
-                parser->handle_warning(TypeException{non_unique_id + l_id});
-
             /* Any error messages generated by any of the
              * procStateXXX calls must be attributed to the state
              * element. To do this, we add a dummy position of
@@ -778,6 +774,10 @@ bool XMLReader::location()
              */
             tracker.setPath(parser, l_path);
             tracker.increment(parser, 1);
+
+            /* Remember the mapping from id to name */
+            if (auto [_, ins] = names.insert_or_assign(l_id, l_name); !ins)
+                parser->handle_warning(TypeException{non_unique_id + l_id});
 
             /* Push location to parser builder. */
             parser->proc_location(l_name.c_str(), l_invariant, l_exponentialRate);
@@ -810,10 +810,6 @@ bool XMLReader::instance()
             tracker.increment(parser, 1);
             std::string i_name = name(true);
 
-            /* Remember the mapping from id to name */
-            if (auto [_, ins] = names.insert_or_assign(i_id, i_name); !ins)
-                parser->handle_warning(TypeException{non_unique_id + i_id});
-
             /* Any error messages generated by the
              * proc_instance_line call must be attributed to the
              * instance line element. To do this, we add a dummy
@@ -821,6 +817,10 @@ bool XMLReader::instance()
              */
             tracker.setPath(parser, i_path);
             tracker.increment(parser, 1);
+
+            /* Remember the mapping from id to name */
+            if (auto [_, ins] = names.insert_or_assign(i_id, i_name); !ins)
+                parser->handle_warning(TypeException{non_unique_id + i_id});
             /* Push instance to parser builder. */
             parser->proc_instance_line();
             parse((xmlChar*)i_name.c_str(), S_INSTANCE_LINE);
@@ -963,9 +963,6 @@ bool XMLReader::branchpoint()
             }
             /* assign an internal name based on the ID of the branchpoint. */
             std::string b_name = "_" + b_id;
-            /* Remember the mapping from id to name */
-            if (auto [_, ins] = names.insert_or_assign(b_id, b_name); !ins)
-                parser->handle_warning(TypeException{non_unique_id + b_id});
             // FIXME: probably not necessary
             /* Any error messages generated by any of the
              * procStateXXX calls must be attributed to the state
@@ -974,6 +971,9 @@ bool XMLReader::branchpoint()
              */
             tracker.setPath(parser, b_path);
             tracker.increment(parser, 1);
+            /* Remember the mapping from id to name */
+            if (auto [_, ins] = names.insert_or_assign(b_id, b_name); !ins)
+                parser->handle_warning(TypeException{non_unique_id + b_id});
             /* Push branchpoint to parser builder. */
             parser->proc_branchpoint(b_name.c_str());
         } catch (TypeException& e) {
